@@ -374,6 +374,9 @@ public:
 			ar.swap(tmp);
 		}
 		catch(std::bad_alloc const &) {
+			// the new value does not fit into the shared segment: at least make
+			// sure the value it was meant to replace is not served any more
+			remove(key);
 			return;
 		}
 
